@@ -119,7 +119,7 @@ function strLiteral(v, st) {
       // optional spellings of ordinary characters
       const m = { '\t': '\\t', '\b': '\\b', '\f': '\\f', '\v': '\\v' }[ch]
       if (m) esc = m
-      else if (cp <= 0xff && rng.bool()) esc = '\\x' + cp.toString(16).padStart(2, '0')
+      else if (cp <= 0xff && rng.bool()) { esc = '\\x' + cp.toString(16).padStart(2, '0'); if (rng.bool(0.4)) esc = '\\x' + esc.slice(2).toUpperCase() }
       else if (cp <= 0xffff && !(cp >= 0xd800 && cp <= 0xdfff)) esc = '\\u' + cp.toString(16).padStart(4, '0').toUpperCase()
       // (astral characters are never spelt as surrogate-pair escapes: the compiler documents them as illegal)
     }
@@ -473,7 +473,7 @@ export function genExpr(rng, depth, ctx) {
       const items = []
       for (let i = 0; i < n; i++) {
         const r = rng.int(10)
-        if (r < 2) items.push({ k: 'hole' })
+        if (r < 2) { items.push({ k: 'hole' }); while (rng.bool(0.35) && items.length < 6) items.push({ k: 'hole' }) } // runs of holes
         else if (r < 4) items.push({ k: 'spread', e: rng.bool(0.7) ? id(rng.pick(ctx.arrays || ['arr'])) : arr([{ k: 'v', e: sub() }]) })
         else items.push({ k: 'v', e: sub() })
       }
@@ -509,6 +509,7 @@ export function* enumDepth2(leafOf) {
   forms.push({ n: 2, mk: (xs) => call(xs[0], [xs[1]]), tag: '()' })
   forms.push({ n: 2, mk: (xs) => arr([{ k: 'v', e: xs[0] }, { k: 'hole' }, { k: 'v', e: xs[1] }]), tag: '[,]' })
   forms.push({ n: 2, mk: (xs) => arr([{ k: 'hole' }, { k: 'spread', e: arr([{ k: 'v', e: xs[0] }]) }, { k: 'v', e: xs[1] }]), tag: '[...]' })
+  forms.push({ n: 2, mk: (xs) => arr([{ k: 'hole' }, { k: 'hole' }, { k: 'v', e: xs[0] }, { k: 'hole' }, { k: 'hole' }, { k: 'hole' }, { k: 'v', e: xs[1] }, { k: 'hole' }]), tag: '[,,]' })
   forms.push({ n: 2, mk: (xs) => obj([{ k: 'kv', name: 'x', e: xs[0] }, { k: 'spread', e: obj([{ k: 'kv', name: 'y', e: xs[1] }]) }]), tag: '{...}' })
   let k = 0
   for (const outer of forms) {
